@@ -131,6 +131,7 @@ Section P.
     - fin I.
     - fin I.
     - fin I.
+    - fin I.
   Qed.
 
   (* ---- whole histories over several queues ---- *)
@@ -294,6 +295,7 @@ Section P.
     - fin I.
     - fin I.
     - fin I.
+    - cbn. split; [fin I|constructor].
   Qed.
 
   Lemma dusq_run ops s qs :
